@@ -1217,8 +1217,6 @@ func ruleC19_5(c *Ctx) {
 
 func canReachInstr(a, b ssa.Instruction) bool { return canReach(a, b) }
 
-
-
 // ---------------------------------------------------------------------------------------------
 // C19.6
 
